@@ -13,7 +13,7 @@ def body(ctx):
     n = 150 if ctx.tier == "quick" else 2500
     for group in ("c13", "c13r"):
         outdir, meta = ctx.harness(group, n if group == "c13" else n // 2)
-        ctx.correspond(outdir, nontrivial_tag=lambda t: "diagnostics" in t)
+        ctx.correspond(outdir, nontrivial_tag=lambda t: "diagnostics" in t, shrink_group=group)
     ctx.notes.append(f"twins discarded because the rewrite changed the token sequence: {ctx.stats.get('twin_changed_the_token_sequence', 0)}; twins that did not parse: {ctx.stats.get('twin_does_not_parse', 0)}")
 
 
